@@ -171,6 +171,9 @@ pub struct ServerCfg {
     pub snapshots: bool,
     /// feed ACK/RST typed requests to the handler as well (hostile family)
     pub feed_all_types: bool,
+    /// record, after every handler call, which cache entries are physically
+    /// held (hook snapshot at rewound clock; expiry family)
+    pub record_held: bool,
 }
 
 pub struct Server {
@@ -182,6 +185,8 @@ pub struct Server {
     /// per cache key: size of the last Block2 the server sent (C10 premise)
     pub last_b2_size: BTreeMap<(Ep, Key), usize>,
     pub dead: bool,
+    /// (arrival seq, entries held after it) when cfg.record_held
+    pub held_log: Vec<(usize, Vec<(Ep, u8, Vec<String>)>)>,
 }
 
 fn block_of(p: &Packet, o: CoapOption) -> Option<(u16, bool, u8)> {
@@ -315,7 +320,7 @@ impl Server {
             max_total_message_size: cfg.budget,
             cache_expiry_duration: Duration::from_nanos(cfg.expiry_ns),
         });
-        Server { cfg, handler, app: App::new(), log: Vec::new(), violations: Vec::new(), last_b2_size: BTreeMap::new(), dead: false }
+        Server { cfg, handler, app: App::new(), log: Vec::new(), violations: Vec::new(), last_b2_size: BTreeMap::new(), dead: false, held_log: Vec::new() }
     }
 
     #[cfg(feature = "hooks")]
@@ -506,6 +511,12 @@ impl Server {
                     pending_err = Some(e);
                 }
             }
+        }
+
+        #[cfg(feature = "hooks")]
+        if self.cfg.record_held {
+            let held = self.snapshot_held().into_iter().map(|e| (e.requester.unwrap_or(0), e.request_type_ord, e.path)).collect();
+            self.held_log.push((seq, held));
         }
 
         // ---- error rendering: C07 / C11 ------------------------------
